@@ -18,8 +18,7 @@ Obs == [closed   |-> sclosed,
         endc     |-> endClosed,
         rwait    |-> rwait,
         await    |-> await["s"],
-        timers   |-> timers,
-        settled  |-> ~ENABLED Internal]
+        timers   |-> timers]
 
 Rec == hist' = Append(hist, [ev |-> lastEv', obs |-> Obs'])
 
@@ -40,5 +39,6 @@ GSpec == GInit /\ [][GStep]_gvars
 
 Done == Len(hist) = MaxDepth \/ ~ENABLED GStep
 
-Emit == Done => PrintT(<<"BEHAVIOUR", ToJson([steps |-> hist])>>)
+\* settled: the last recorded state is quiescent (no continuation pending), so its observation can be compared
+Emit == Done => PrintT(<<"BEHAVIOUR", ToJson([steps |-> hist, settled |-> ~ENABLED Internal])>>)
 =============================================================================
